@@ -296,8 +296,10 @@ def typeSets : List (List String) :=
   [["int"], ["unsigned", "int"], ["long", "unsigned"], ["long", "long", "int"], ["short"],
    ["unsigned", "char"], ["double"], ["long", "double"], ["_Bool"], ["signed"], ["float", "_Complex"]]
 
-def storages : List (Option String) :=
-  [none, some "static", some "extern", some "typedef", some "register", some "auto", some "_Thread_local"]
+/-- storage-class specifiers: none, one, or `_Thread_local` together with `static` / `extern` (6.7.1p2) -/
+def storages : List (List String) :=
+  [[], ["static"], ["extern"], ["typedef"], ["register"], ["auto"], ["_Thread_local"], ["static", "_Thread_local"],
+   ["_Thread_local", "extern"], ["_Thread_local", "static"]]
 
 /-- all permutations of a list -/
 def perms {α} : List α → List (List α)
@@ -332,10 +334,10 @@ def randSpecs (s : Nat) : List Spc × Nat :=
   let s2 := lcg s1
   let qs : List String := pick [[], [], ["const"], ["volatile"], ["const", "volatile"], ["_Atomic"]] s2
   let s3 := lcg s2
-  let fs : List String := if st == some "typedef" || st == some "register" || st == some "auto" then []
-    else pick [[], [], ["inline"], ["_Noreturn"]] s3
+  let fs : List String := if st.contains "typedef" || st.contains "register" || st.contains "auto" || st.contains "_Thread_local" then []
+    else pick [[], [], ["inline"], ["_Noreturn"], ["inline", "_Noreturn"], ["_Noreturn", "inline"]] s3
   let s4 := lcg s3
-  let all : List Spc := tys.map .ty ++ (match st with | some x => [.storage x] | none => []) ++ qs.map .qual ++ fs.map .func
+  let all : List Spc := tys.map .ty ++ st.map .storage ++ qs.map .qual ++ fs.map .func
   let ps := perms all
   (pick ps s4, lcg s4)
 
